@@ -148,7 +148,25 @@ func c06HistInputs() (profiles []string, datas []string) {
 		return EmitYAML(M("profile", name, "prefixes", M("ex", EX), "violation", strs("v"),
 			"validations", M("v", M("message", "m", "targetClass", "ex.T", "propertyConstraints", M(prop, M("minCount", n))))))
 	}
-	profiles = []string{mkp("same name", "ex.p1", 1), mkp("same name", "ex.p2", 1), mkp("same name", "ex.p1", 2), mkp("other", "ex.p1", 1), "profile: [broken\n"}
+	// the same compact IRI bound to different namespaces in different profiles (one of them the api-extension namespace)
+	rebind := func(ns string) string {
+		return EmitYAML(M("profile", "rebind", "prefixes", M("ex", EX, "ext", ns), "violation", strs("v"),
+			"validations", M("v", M("message", "m", "targetClass", "ex.T", "propertyConstraints", M("ext.owner / ex.p1", M("minCount", 1))))))
+	}
+	// two long profiles (> 16 KiB) of equal length that differ only near the end (level lists written last)
+	long := func(swap bool) string {
+		vals := M()
+		for i := 0; i < 120; i++ {
+			vals.Set(fmt.Sprintf("rule-%03d", i), M("message", fmt.Sprintf("message number %03d with some padding text to make the profile long", i), "targetClass", "ex.T", "propertyConstraints", M(fmt.Sprintf("ex.p%d", i%3+1), M("minCount", 1))))
+		}
+		a, b := "rule-000", "rule-001"
+		if swap {
+			a, b = b, a
+		}
+		return EmitYAML(M("profile", "long", "prefixes", M("ex", EX), "validations", vals, "violation", strs(a), "warning", strs(b)))
+	}
+	profiles = []string{mkp("same name", "ex.p1", 1), mkp("same name", "ex.p2", 1), mkp("same name", "ex.p1", 2), mkp("other", "ex.p1", 1), "profile: [broken\n",
+		rebind("http://a.ml/vocabularies/api-extension#"), rebind("http://example.org/ext#"), long(false), long(true)}
 	mkd := func(v1, v2 string, two bool) string {
 		g := &Graph{}
 		n := g.Add(nid(0), EX+"T").P(EX+v1, "a")
@@ -158,7 +176,14 @@ func c06HistInputs() (profiles []string, datas []string) {
 		g.Add(nid(1), EX+"T").P(EX+v2, "a")
 		return g.FlatJSONLD()
 	}
-	datas = []string{mkd("p1", "p2", false), mkd("p2", "p1", false), mkd("p1", "p1", true), mkd("p3", "p3", false), `{"@graph":[`, `{}`}
+	owner := func() string {
+		g := &Graph{}
+		g.Add(nid(0), EX+"T").P("http://example.org/ext#owner", Ref(EX+"o")).P(EX+"p1", "a")
+		g.Add(EX+"o", EX+"O").P(EX+"p1", "x")
+		g.Add(nid(1), EX+"T").P(EX+"p2", "a")
+		return g.FlatJSONLD()
+	}
+	datas = []string{mkd("p1", "p2", false), mkd("p2", "p1", false), mkd("p1", "p1", true), mkd("p3", "p3", false), `{"@graph":[`, `{}`, owner()}
 	return
 }
 
@@ -168,6 +193,9 @@ func c06RunHistory(c *Ctx, cs c06Case) {
 	var calls []call
 	for p := range profiles {
 		for d := range datas {
+			if p >= 7 && d != 0 {
+				continue // the two long profiles (slow to compile) are paired with the first document only
+			}
 			calls = append(calls, call{p, d})
 		}
 	}
@@ -210,7 +238,7 @@ func c06RunHistory(c *Ctx, cs c06Case) {
 func c06Gen(tier string, emit func(c06Case)) {
 	{
 		ps, ds := c06HistInputs()
-		for k := 0; k < len(ps)*len(ds); k++ {
+		for k := 0; k < 7*len(ds)+(len(ps)-7); k++ {
 			emit(c06Case{Pass: "history", Part: k})
 		}
 	}
